@@ -14,6 +14,7 @@ package main
 
 import (
 	"fmt"
+	"os"
 	"strings"
 
 	"verifharness/elkrun"
@@ -63,6 +64,7 @@ func lines(s string) []string { return strings.Split(strings.TrimRight(s, "\n"),
 // sub replaces @ by the suffix, %S by the hole as statements assigning to h@, %E by the hole as an expression.
 func tmpl(t string, s string, h block) []string {
 	t = strings.ReplaceAll(t, "@", s)
+	t = strings.ReplaceAll(t, "%I", "@")
 	var out []string
 	for _, l := range lines(t) {
 		trim := strings.TrimLeft(l, " ")
@@ -86,7 +88,8 @@ type construct struct {
 	defs string // top-level definitions, @ = suffix, %S/%E allowed (then the hole lives inside the definition)
 	body string // statements in the function, last line = the value expression
 	// features
-	async bool // needs a thread pool when run
+	async    bool // needs a thread pool when run
+	leafOnly bool // never used as the inner construct of a pair (its finding would take the shape of the enclosing expression)
 }
 
 func (c construct) build(s string, h block) block {
@@ -211,9 +214,6 @@ s@ := 0
 for %[a@, b@] in [%[1, n], %[3, 4]]
   %S
   s@ += h@ + a@ + b@
-end
-for k@, v@ in { 1 => n }
-  s@ += k@ + v@
 end
 s@`},
 	{name: "fornum", body: `var h@: Int = 0
@@ -365,7 +365,7 @@ h@ + f@`},
 	{name: "defer", body: `var h@: Int = 0
 d@ := 0
 defer d@ += 1
-defer
+defer do
   %S
   d@ += h@
 end
@@ -404,7 +404,7 @@ case nil then 0
 case :sym then 1
 case ::Std::ArrayList(length: > 1 as l@) then 2
 case ::Std::Int() as i@ then 3
-case ::Std::String(length: 3) as s@ && %/s/
+case ::Std::String(length: 3) as s@
   %S
   h@ + s@.length
 case 1.5 || "x" then 5
@@ -419,7 +419,7 @@ case true
   h@
 case false then 2
 end
-r@`},
+(r@ ?? 0)`},
 	{name: "closure-upvalue", body: `var h@: Int = 0
 k@ := n + 1
 f@ := |x@: Int|: Int ->
@@ -454,19 +454,23 @@ re@ := %/a${h@}b+/i
 r@ := 0
 r@ += 1 if re@.matches("a2bb")
 y@.to_string.length + c@.to_string.length + r@`},
+	{name: "symbol-inspect-interpolation", leafOnly: true, body: `var h@: Int = 0
+%S
+y@ := :"s#{h@}y"
+y@.to_string.length`},
 	{name: "list-tuple-literals", body: `l@ := [1, %E, [n, [2]], *[3, n]]
 t@ := %[n, %[1, 2], %E]
 w@ := %w[a b]
 l@.length + t@.length + w@.length`},
-	{name: "map-record-set-range-literals", body: `m@ := { 1 => n, n => { 2 => %E }, "k": 3 }
-rc@ := %{ a: n, b: %E }
+	{name: "map-record-set-range-literals", body: `m@ := { 1 => n, n + 1 => { 2 => %E } }
+rc@ := %{ "a" => n, 2 => %E }
 st@ := ^[1, n, %E]
 rg@ := n...(n + %E)
 ro@ := n<.<9
 rb@ := ...n
 re@ := n...
 cl@ := [n, 2]:4
-m@.length + rc@.length + st@.length + rg@.to_a.length`},
+m@.length + st@.length`},
 	{name: "logical-and-or-nilcoalesce", body: `var q@: Int? = nil
 q@ = n if n > 100
 a@ := q@ ?? %E
@@ -512,22 +516,21 @@ l@[1] += 2
 l@[2] ||= 4
 hm@ := { "a" => 1 }
 hm@["b"] = x@
-hm@["a"] += 1
 x@ + (q@ ?? 0) + l@[0] + l@[1] + hm@.length`},
 	{name: "class-attrs-init-methods", defs: `class Foo@
   attr a: Int
   getter g: Int
   setter s: Int
-  init(@a: Int, @g: Int = 3)
-    @s = 0
+  init(%Ia: Int, %Ig: Int = 3)
+    %Is = 0
   end
   def incr(n: Int): Int
     var h@: Int = 0
     %S
-    @a += h@
-    @a
+    %Ia += h@
+    %Ia
   end
-  def both: Int then @a + self.g + @s
+  def both: Int then %Ia + self.g + %Is
   singleton
     def mk(v: Int): Foo@ then Foo@(v)
   end
@@ -540,22 +543,22 @@ p@ := Foo@.mk(3)
 o@.a + p@.g + o@.both`},
 	{name: "class-init-body", defs: `class Ini@
   attr v: Int
-  init(n: Int, @w: Int = 1)
+  init(n: Int, %Iw: Int = 1)
     var h@: Int = 0
     %S
-    @v = h@
+    %Iv = h@
   end
 end
 `, body: `Ini@(n).v`},
 	{name: "class-setter-body", defs: `class Set@
   attr v: Int
   init
-    @v = 0
+    %Iv = 0
   end
   def w=(n: Int)
     var h@: Int = 0
     %S
-    @v = h@
+    %Iv = h@
   end
 end
 `, body: `o@ := Set@()
@@ -589,8 +592,8 @@ class Sq@
   include Mx@
   implement Sh@
   attr side: Int
-  init(@side: Int); end
-  def area: Int then @side * @side
+  init(%Iside: Int); end
+  def area: Int then %Iside * %Iside
 end
 `, body: `q@ := Sq@(3)
 p@ := Pt@(1)
@@ -671,8 +674,54 @@ def rec@(n: Int, acc: Int): Int
   rec@(n - 1, acc + n)
 end
 `, body: `tail@(n) + rec@(3, 0) + opt@(1) + opt@(1, c: 5) + opt@(1, 2, 3) + rst@(1) + rst@(1, 2, 3)`},
-	{name: "call-args-operand", body: `r@ := leaf29(leaf29(n) + leaf29(%E)) + [1, 2].length + "ab".length + any29(n).hash.to_int % 1
+	{name: "call-args-operand", body: `r@ := leaf29(leaf29(n) + leaf29(%E)) + [1, 2].length + "ab".length
 r@`},
+	{name: "generic-operators", body: `var da@: Int | Float = n
+var db@: Int | Float = %E
+r@ := da@ + db@ - da@ * db@ / (db@ + 1) % 5
+p@ := da@ ** 2
+ng@ := -da@
+c@ := 0
+c@ += 1 if da@ < db@ || da@ <= db@ || da@ > db@ || da@ >= db@ || da@ == db@ || da@ != db@
+k@ := 0
+while da@ < db@
+  k@ += 1
+  break if k@ > 2
+end
+until da@ >= db@
+  k@ += 1
+  break if k@ > 4
+end
+c@ += 1 if n !== 3
+c@ += 1 if n !~ 3.0
+var dx@: Int | Int64 = n
+dx@++
+dx@--
+c@ + k@ + r@.to_int`},
+	{name: "typed-literals-safe-navigation", body: `var h@: Int = 0
+%S
+a64@ := 5i64 + 1i64
+a32@ := 5i32 - 1i32
+a16@ := 5i16 * 2i16
+au8@ := 5u8 + 1u8
+au16@ := 5u16 + 1u16
+au32@ := 5u32 + 1u32
+au64@ := 5u64 / 1u64
+c@ := ((5i64 <<< 1) + (5i64 >>> 1)).to_int
+f0@ := 0.0 + 1.0 + 2.0 + h@.to_float
+c@ += 1 if f0@ < 2.5 && f0@ == 3.0 || f0@ >= 1.0
+var q@: String? = nil
+q@ = "x" if h@ > 100
+ln@ := q@?.length
+c@ += 1 if q@ == nil
+c@ + a64@.to_int + (ln@ ?? 0)`},
+	{name: "splat-literals", body: `m@ := { 1 => 2 }
+m2@ := { **m@, n => %E }
+l@ := [1, 2]
+l2@ := [*l@, %E, 5 => 9]
+t2@ := %[*l@, n]
+s2@ := ^[*l@, n]
+l2@.length + m2@.length + t2@.length + s2@.length`},
 	{name: "box", body: `var h@: Int = 0
 %S
 bx@ := &h@
@@ -838,10 +887,56 @@ func family01(ctx string, b, u int) string {
 	return s.String()
 }
 
+
+// ------------------------------------------------------------------------------------------------ wide programs
+
+// widePrograms: functions with more than 255 locals / constants / call sites / upvalues / instance variables /
+// dynamic elements, which make the compiler emit the 16-bit forms of the indexed instructions.
+func widePrograms() []program {
+	const N = 260
+	var out []program
+	add := func(name, src string) {
+		out = append(out, program{id: "wide/" + name, construct: "wide " + name, src: src})
+	}
+	rep := func(f func(i int) string, sep string) string {
+		var l []string
+		for i := 0; i < N; i++ {
+			l = append(l, f(i))
+		}
+		return strings.Join(l, sep)
+	}
+	// locals (GET/SET_LOCAL16, PREP_LOCALS16), a box and a closure over high locals (BOX_LOCAL16, long closure entries)
+	add("locals", "def w29(n: Int): Int\n"+rep(func(i int) string { return fmt.Sprintf("  a%d := n + %d", i, i) }, "\n")+
+		"\n  bx := &a258\n  f := ||: Int ->\n    a259 += 1\n    a259 + a257\n  end\n  a259 = a259 + a0\n  f.() + a259\nend\nprintln(w29(2))\n")
+	// upvalues (GET/SET_UPVALUE16)
+	add("upvalues", "def w29(n: Int): Int\n"+rep(func(i int) string { return fmt.Sprintf("  a%d := n + %d", i, i) }, "\n")+
+		"\n  f := ||: Int ->\n"+rep(func(i int) string { return fmt.Sprintf("    a%d += 1", i) }, "\n")+"\n    a259 + a0\n  end\n  f.()\nend\nprintln(w29(2))\n")
+	// constants, call sites and global constants beyond index 255 (LOAD_VALUE16, CALL_METHOD_*16, GET_CONST16, CALL16)
+	add("constants", "def leaf29(x: Int): Int then x + 1\ndef w29(n: Int): Int\n  s := 0\n"+
+		rep(func(i int) string { return fmt.Sprintf("  s += \"s%d\".length + leaf29(%d)", i, 1000+i) }, "\n")+
+		"\n  c := |x: Int|: Int -> x + 1\n  s += c.(1)\n  t := ::Std::Int.name.length\n  v := [n, 2].length\n  o := ::Std::Object()\n  s + t + v\nend\nprintln(w29(2))\n")
+	// dynamic collection elements (NEW_*16)
+	add("collections", "def w29(n: Int): Int\n  l := ["+rep(func(i int) string { return "n" }, ", ")+"]\n  t := %["+rep(func(i int) string { return "n" }, ", ")+
+		"]\n  st := ^["+rep(func(i int) string { return fmt.Sprintf("n + %d", i) }, ", ")+"]\n  m := {"+rep(func(i int) string { return fmt.Sprintf("n + %d => n", i) }, ", ")+
+		"}\n  r := %{"+rep(func(i int) string { return fmt.Sprintf("n + %d => n", i) }, ", ")+"}\n  s := \""+rep(func(i int) string { return "${n}-" }, "")+"\"\n  y := :\""+rep(func(i int) string { return "${n}_" }, "")+
+		"\"\n  re := %/"+rep(func(i int) string { return "${n}a" }, "")+"/\n  l.length + t.length + st.length + m.length + r.length + s.length\nend\nprintln(w29(2))\n")
+	// instance variables (GET/SET_IVAR16)
+	add("ivars", "class W29\n"+rep(func(i int) string { return fmt.Sprintf("  attr a%d: Int", i) }, "\n")+"\n  init\n"+
+		rep(func(i int) string { return fmt.Sprintf("    @a%d = %d", i, i) }, "\n")+"\n  end\n  def sum: Int\n    @a259 += 1\n    @a259 + @a258 + @a0\n  end\nend\nprintln(W29().sum)\n")
+	// a long jump over a big body and a long loop (16-bit distances near their limit are not reachable with small programs;
+	// this one only makes distances exceed one byte)
+	add("long-jumps", "def w29(n: Int): Int\n  s := 0\n  i := 0\n  while i < 2\n    if n > 100\n"+
+		rep(func(i int) string { return fmt.Sprintf("      s += %d", i) }, "\n")+"\n    else\n      s += 1\n    end\n    i += 1\n  end\n  s\nend\nprintln(w29(2))\n")
+	return out
+}
+
 // ------------------------------------------------------------------------------------------------ enumeration
 
 func runPrograms(r *engine.R, ps []program) {
 	for _, p := range ps {
+		if f := os.Getenv("C29_ONLY"); f != "" && !strings.Contains(p.id, f) { // development aid
+			continue
+		}
 		for _, abort := range []bool{false, true} {
 			checkProgram(r, p, abort)
 			elkrun.ResetRuntime()
@@ -864,7 +959,7 @@ func enumerate(c *engine.Ctx) {
 		for i := range constructs {
 			ci := constructs[i]
 			c.Case(fmt.Sprintf("single/%s/%s", ctx, ci.name), func(r *engine.R) {
-				b := ci.build("o", leafBlock())
+				b := ci.build("1", leafBlock())
 				src, pool := wrap(ctx, b)
 				runPrograms(r, []program{{id: "single/" + ctx + "/" + ci.name, construct: ci.name + " in " + ctx, src: src, pool: pool || ci.async}})
 			})
@@ -879,13 +974,21 @@ func enumerate(c *engine.Ctx) {
 				var ps []program
 				for j := range constructs {
 					cin := constructs[j]
-					b := co.build("o", cin.build("i", leafBlock()))
+					if cin.leafOnly {
+						continue
+					}
+					b := co.build("1", cin.build("2", leafBlock()))
 					src, pool := wrap(ctx, b)
 					ps = append(ps, program{id: "pair/" + ctx + "/" + co.name + "[" + cin.name + "]", construct: co.name + "[" + cin.name + "] in " + ctx, src: src, pool: pool || co.async || cin.async})
 				}
 				runPrograms(r, ps)
 			})
 		}
+	}
+	// (1b) wide programs: the 16-bit instruction forms
+	for _, wp := range widePrograms() {
+		wp := wp
+		c.Case(wp.id, func(r *engine.R) { runPrograms(r, []program{wp}) })
 	}
 	// (2a) C15 bodies x wrappers
 	for _, b := range bodies15 {
@@ -980,7 +1083,15 @@ func enumerate(c *engine.Ctx) {
 					for _, cc := range cs {
 						p := cc.Program(site, "_29")
 						src := mini.Prelude + mini.PrintProgram(p, mini.PrintOpts{})
-						ps = append(ps, program{id: fmt.Sprintf("cl/%s/%s", site, cc.Shape()), construct: "closure term " + cc.Shape() + " at " + site, src: src})
+						// terms that pass a closure in a tail call write through stale stack pointers in this tree (C13's
+						// finding; C13 runs them in a child process): they are verified statically only
+						risky := false
+						for _, f := range cc.Features() {
+							if f == "tail-call" {
+								risky = true
+							}
+						}
+						ps = append(ps, program{id: fmt.Sprintf("cl/%s/%s", site, cc.Shape()), construct: "closure term " + cc.Shape() + " at " + site, src: src, norun: risky})
 					}
 					runPrograms(r, ps)
 				})
